@@ -56,6 +56,7 @@ func upfGoroutines() []gInfo {
 			continue
 		}
 		var fns []string
+		creator := ""
 		for _, l := range strings.Split(lines[1], "\n") {
 			if l == "" || l[0] == '\t' {
 				continue
@@ -65,7 +66,7 @@ func upfGoroutines() []gInfo {
 				if k := strings.Index(l, " in goroutine"); k > 0 {
 					l = l[:k]
 				}
-				fns = append(fns, l)
+				creator = l
 				continue
 			}
 			if k := strings.LastIndex(l, "("); k > 0 {
@@ -85,7 +86,7 @@ func upfGoroutines() []gInfo {
 		// a goroutine started by the harness that merely calls into go-upf (producers, SMF scripts) is not a
 		// go-upf goroutine - except the application's run path, which the harness starts in place of main()
 		role := own[len(own)-1]
-		if isHarness(fns[len(fns)-1]) && !strings.Contains(role, "pkg/app.") {
+		if (isHarness(fns[len(fns)-1]) || isHarness(creator)) && !strings.Contains(role, "pkg/app.") {
 			continue
 		}
 		gi := gInfo{Role: shortFn(role), Own: shortFn(own[0])}
@@ -409,14 +410,6 @@ func c17Run(res *vh.Result, ci int, rng *vh.Rng) {
 				} else if atomic.LoadInt32(&quit) != 0 {
 					return
 				}
-				// flow control: keep the report queue well below its capacity. Overflowing it wedges the event loop
-				// against the netlink multiplexer (a C18 finding); this check is about races and Stop.
-				for spin := 0; spin < 2000; spin++ {
-					if _, sr, _ := srv.VerifQueueLens(); sr < 24 {
-						break
-					}
-					time.Sleep(200 * time.Microsecond)
-				}
 				mu.Lock()
 				var target uint64
 				if len(liveSEIDs) > 0 && r.Bool() {
@@ -449,8 +442,9 @@ func c17Run(res *vh.Result, ci int, rng *vh.Rng) {
 					u.USARTrigger.Flags = report.USAR_TRIG_VOLTH
 					srv.NotifySessReport(report.SessReport{SEID: target, Reports: []report.Report{u}})
 				}
-				// paced: this check is about races and Stop, not about overflowing the queues (that is C18)
-				time.Sleep(time.Duration(200+r.Intn(1200)) * time.Microsecond)
+				if r.Chance(2, 3) {
+					time.Sleep(time.Duration(r.Intn(800)) * time.Microsecond)
+				}
 			}
 		}(p)
 	}
